@@ -124,7 +124,8 @@ LOOPS_SHARE = 0.3
 # UnderstandIterations spreads outside requirements only within each half).  Default:
 # the generator gives every such input to a first-half member too and counts it.
 # VERIF_C14_INCLUDE=lower_ext generates the class.
-EXCLUDE_LOWER_EXT = 'lower_ext' not in os.environ.get('VERIF_C14_INCLUDE', '').split(',')
+# repaired in /repo by fix: a024270 - generated by default; VERIF_C14_EXCLUDE=lower_ext restores the exclusion
+EXCLUDE_LOWER_EXT = 'lower_ext' in os.environ.get('VERIF_C14_EXCLUDE', '').split(',')
 
 
 def gen_loops(rng, fresh):
